@@ -849,7 +849,9 @@ def _size_forms(arrays):
 
 
 def _clamp_kind(x, ss, arrays):
-    """how the index value x derives from the insertion index ss:  'raw' (ss itself), 'clamped' (ss with == size mapped into range), None"""
+    """how the index value x derives from the insertion index ss:  'raw' (ss itself), 'clamped' (ss with == size mapped into range), None.
+    The insertion index lies in 0..size, so a condition on it selects  only the == size cells / every cell but those / all / none  - decided on
+    the value of the condition (any spelling of  ss == size,  ss >= size,  ss > size - 1,  ss < size,  size <= ss ...)"""
     if same(x, ss):
         return "raw"
     sizes = _size_forms(arrays)
@@ -860,9 +862,34 @@ def _clamp_kind(x, ss, arrays):
     def is_last(v):
         return any(same(v, n - 1) for n in sizes)
 
-    def eq_size(c):
-        a = app(c, "cmp:Eq")
-        return bool(a) and ((same(a[0], ss) and is_size(a[1])) or (same(a[1], ss) and is_size(a[0])))
+    def cells(cond):
+        """which cells of the insertion index satisfy cond: "size" (exactly those == size), "below" (exactly those < size), "all", "none";
+        None: another set or not a comparison of the index with the size"""
+        canon, pol, truth = norm_atom(cond)
+        if truth is not None:
+            return "all" if truth else "none"
+        if canon is None:
+            return None
+        out = None
+        e = app(canon, "cmp:Eq")
+        if e and len(e) == 2:
+            k = next((const_of(e[0] - e[1] - (ss - n)) for n in sizes if const_of(e[0] - e[1] - (ss - n)) is not None), None)
+            if k is None:
+                k = next((-const_of(e[0] - e[1] - (n - ss)) for n in sizes if const_of(e[0] - e[1] - (n - ss)) is not None), None)
+            if k is not None:
+                out = "size" if k == 0 else ("none" if k < 0 else None)          # ss == size - k
+        g = app(canon, "cmp:Gt")
+        if g and len(g) == 2 and not is_unknown(g[0]) and not is_unknown(g[1]):
+            delta = g[0] - g[1]
+            k1 = next((const_of(delta - (ss - n)) for n in sizes if const_of(delta - (ss - n)) is not None), None)
+            k2 = next((const_of(delta - (n - ss)) for n in sizes if const_of(delta - (n - ss)) is not None), None)
+            if k1 is not None and k1.denominator == 1:
+                out = "none" if k1 <= 0 else ("size" if k1 == 1 else None)       # ss >= size - k1 + 1
+            elif k2 is not None and k2.denominator == 1:
+                out = "all" if k2 >= 1 else ("below" if k2 == 0 else None)       # ss <= size + k2 - 1
+        if out is None or pol:
+            return out
+        return {"size": "below", "below": "size", "all": "none", "none": "all"}[out]
 
     def at_size(val, here):
         """what the cells whose insertion index == size receive: `val`, written over `here` (forms that equal the size on exactly those cells:
@@ -881,30 +908,24 @@ def _clamp_kind(x, ss, arrays):
 
     a = app(x, "upd")
     if a and same(a[0], ss):
-        # which cells the store reaches: the insertion index lies in 0..size, so only `== size` (or `>= size`) matters
-        canon, pol, _ = norm_atom(a[1])
-        covers = None
-        if canon is not None and eq_size(canon):
-            covers = pol                                   # == size  /  != size
-        g = app(canon, "cmp:Gt") if canon is not None else None
-        if g and same(g[0], ss) and is_size(g[1]):
-            covers = False                                 # > size never happens, <= size is every cell: not a clamp
-        if g and is_size(g[0]) and same(g[1], ss):
-            covers = not pol                               # size > index: the other cells;  index >= size: the == size cells
-        if covers is None:
+        # which cells the store reaches
+        cs = cells(a[1])
+        if cs is None:
             return None
-        if not covers:
+        if cs in ("none", "below"):
             return "raw"            # the == size cells are left as they are
+        if cs == "all":
+            return "raw"            # every position is overwritten / shifted: not a clamp of the == size cells
         return at_size(a[2], [F.fn("idx", ss, a[1])])
     if not is_unknown(x) and not isinstance(x, tuple):
         # index - (index == size)  /  index - (index >= size): a boolean subtracted as 0 / 1
-        canon, pol, _ = norm_atom(ss - x)
-        if canon is not None:
-            g = app(canon, "cmp:Gt")
-            if (eq_size(canon) and pol) or (g and is_size(g[0]) and same(g[1], ss) and not pol):
+        d = ss - x
+        if norm_atom(d)[0] is not None and (head(norm_atom(d)[0]) or "").startswith("cmp:"):
+            cs = cells(d)
+            if cs == "size":
                 return "clamped"
-            if g and same(g[0], ss) and is_size(g[1]) and pol:
-                return "raw"            # index - (index > size): never subtracts, == size stays
+            if cs == "none":
+                return "raw"        # index - (index > size): never subtracts, == size stays
     c = _is_call(x, ("minimum", "fmin"), ["x1", "x2"])
     if c and ((same(c.get("x1"), ss) and is_last(c.get("x2"))) or (same(c.get("x2"), ss) and is_last(c.get("x1")))):
         return "clamped"
@@ -919,16 +940,20 @@ def _clamp_kind(x, ss, arrays):
             return "raw"                # no upper bound below the size
     c = _is_call(x, ("where",), ["condition", "x", "y"])
     if c and c.get("condition") is not None and c.get("x") is not None and c.get("y") is not None:
-        # np.where(cond, x, y): the cells with index == size get one of the two values, all other cells must keep the index
-        canon, pol, _ = norm_atom(c["condition"])
-        yes, no = (c.get("x"), c.get("y")) if pol else (c.get("y"), c.get("x"))
-        g = app(canon, "cmp:Gt") if canon is not None else None
-        if canon is not None and eq_size(canon):
-            return at_size(yes, [ss]) if same(no, ss) else None           # == size cells: `yes`
-        if g and is_size(g[0]) and same(g[1], ss):
-            return at_size(no, [ss]) if same(yes, ss) else None           # size > index: the in-range cells keep it, the others get `no`
-        if g and same(g[0], ss) and is_size(g[1]):
-            return "raw" if same(no, ss) else None                        # index > size never happens: every cell gets `no`
+        # np.where(cond, x, y): out of range on the == size cells is a fact whatever the other cells get; in range there counts only if the
+        # other cells keep the index
+        cs = cells(c["condition"])
+        yes, no = c["x"], c["y"]
+        if cs == "size":
+            k = at_size(yes, [ss])
+            return k if k == "raw" or same(no, ss) else None
+        if cs == "below":
+            k = at_size(no, [ss])
+            return k if k == "raw" or same(yes, ss) else None
+        if cs == "none":
+            return "raw" if same(no, ss) else None
+        if cs == "all":
+            return "raw" if same(yes, ss) else None
     a = app(x, "op:Mod")
     if a and same(a[0], ss) and is_size(a[1]):
         return "clamped"            # wraps == size to 0: any in-range position will do, the re-check decides
@@ -1672,7 +1697,18 @@ def _iteration_source(it):
     return "source", x
 
 
-def _cmp_const(c, d, is_target):
+_SIZE_HEADS = ("attr:size", "attr:shape", "call:len", "call:np.size", "call:np.shape")
+
+
+def _size_of(of):
+    """predicate: the value is an attribute that tells the number of items (size / shape / len) of an array recognised by `of`"""
+    def pred(v):
+        u = unfn_m(v)
+        return u is not None and u[0] in _SIZE_HEADS and len(u[1]) == 1 and not isinstance(u[1][0], str) and of(u[1][0])
+    return pred
+
+
+def _cmp_const(c, d, is_target, mentions=None):
     """a path test (canonical value c, truth d) as a predicate on the integer quantity recognised by is_target:  `lambda n: bool`;  None when
     the test does not mention the quantity;  "odd" when it mentions it in a form this reader does not know.  Known: the quantity compared with
     an integer constant (==, !=, <, <=, >, >= - canonical forms cmp:Eq / cmp:Gt), the bare quantity as a truth value"""
@@ -1691,7 +1727,7 @@ def _cmp_const(c, d, is_target):
                     if not swapped:         # quantity > k
                         return (lambda n, kk=kk: n > kk) if d else (lambda n, kk=kk: n <= kk)
                     return (lambda n, kk=kk: kk > n) if d else (lambda n, kk=kk: kk <= n)
-    if find(c, is_target):
+    if find(c, mentions or is_target):
         return "odd"
     return None
 
@@ -1707,12 +1743,13 @@ def _emptiness(p, of):
         if u[0] in ("attr:size", "call:len", "call:np.size") and len(u[1]) == 1:
             return of(u[1][0])
         return u[0] == "idx" and const_of(u[1][1]) == 0 and bool(app(u[1][0], "attr:shape")) and of(app(u[1][0], "attr:shape")[0])
-    preds = [_cmp_const(c, d, is_size) for c, d, _ in p.atoms()]
+    preds = [_cmp_const(c, d, is_size, _size_of(of)) for c, d, _ in p.atoms()]
     if "odd" in preds:
         return "odd"
     preds = [f for f in preds if f is not None]
     if not preds:
-        return "untested"
+        # no test on the size: a test on the array's content may stand for one (x.tolist() == []) - not something this reader can judge
+        return "odd" if any(c is not None and find(c, of) for c, _, _ in p.atoms()) else "untested"
     sizes = [n for n in range(5) if all(f(n) for f in preds)]
     return "empty" if sizes == [0] else ("non-empty" if any(n > 0 for n in sizes) else "empty")
 
@@ -1874,12 +1911,16 @@ def r4_expanddof(ctx):
         X, _ = _cross_rows(v)
         if sym_of(strip(X)) != dofp:
             continue
-        tests = []
+        tests, unread = [], None
         for c, d, node in p.atoms():
             fn_, fc = _cmp_const(c, d, is_ndim), _cmp_const(c, d, is_ncols)
-            if fn_ == "odd" or fc == "odd" or (fn_ is None and fc is None and c is not None and find(c, lambda y: bool(app(y, "attr:shape")) and is_req(app(y, "attr:shape")[0]))):
-                odd = (p, node)
+            shapeish = c is not None and find(c, lambda y: head(y) in ("attr:shape", "attr:ndim", "call:np.shape", "call:np.ndim") and is_req(unfn_m(y)[1][0]))
+            if fn_ == "odd" or fc == "odd" or (fn_ is None and fc is None and shapeish):
+                unread = node
             tests.append((fn_ if callable(fn_) else None, fc if callable(fc) else None))
+        if unread is not None:
+            odd = (p, unread)           # a test on the shape this reader does not know may be the one that establishes the fact
+            continue
         worlds = [(nd, nc) for nd in (0, 1) for nc in (None,)] + [(2, nc) for nc in (1, 2, 3)]
         on_path = [(nd, nc) for nd, nc in worlds
                    if all((f is None or f(nd)) and (g is None or (nc is not None and g(nc))) for f, g in tests)]
